@@ -93,6 +93,19 @@ TrScanPart ==
             /\ \A i \in 1..Len(R.files) : RecEq(s.files[R.files[i].h], R.files[i], TRUE)
   /\ UNCHANGED sh
 
+\* the (truncated chunk hash -> location) list names every chunk location of the shard exactly once and each entry's
+\* hash is the one stored at its location; the file-record ranges list every file exactly once
+TrIndexScan ==
+  /\ IsEvent("ShIndexScan") /\ R.sid \in DOMAIN sh
+  /\ LET s == sh[R.sid]
+         L == {<<R.locs[i][1], R.locs[i][2]>> : i \in 1..Len(R.locs)}
+         All == UNION {{<<x, c - 1>> : c \in 1..Len(s.xorbs[x])} : x \in DOMAIN s.xorbs} IN
+     /\ R.consistent
+     /\ L = All /\ Len(R.locs) = Cardinality(All)
+     /\ {R.file_hashes[i] : i \in 1..Len(R.file_hashes)} = DOMAIN s.files
+     /\ Len(R.file_hashes) = Cardinality(DOMAIN s.files)
+  /\ UNCHANGED sh
+
 TrSizes ==
   /\ IsEvent("ShSizes") /\ R.sid \in DOMAIN sh
   /\ R.mem_size = R.file_size
@@ -263,7 +276,7 @@ TrExpiry == IsEvent("ShExpiry") /\ ExpiryOK = TRUE /\ UNCHANGED sh
 
 TrKeyedTimes == IsEvent("ShKeyedTimes") /\ R.creation = R.creation_set /\ R.expiry = R.creation + R.valid /\ UNCHANGED sh
 
-TraceNext == \/ TrReset \/ TrBuild \/ TrLookup \/ TrScan \/ TrSizes \/ TrSearch \/ TrDedup \/ TrSetOp \/ TrConsolidate
+TraceNext == \/ TrIndexScan \/ TrReset \/ TrBuild \/ TrLookup \/ TrScan \/ TrSizes \/ TrSearch \/ TrDedup \/ TrSetOp \/ TrConsolidate
              \/ TrExport \/ TrDedupPair \/ TrKeyedFile \/ TrExpiry \/ TrKeyedTimes \/ TrMgrLookup \/ TrMgrEnd \/ TrExportLookup \/ TrDedupMust \/ TrScanPart
 TraceSpec == TraceInit /\ [][TraceNext]_vars
 
